@@ -292,6 +292,14 @@ def eval_case(ctx, case):
         text, marks, files = build_include(case)
     else:
         raise ValueError(case["kind"])
+    if case.get("lead"):
+        # empty lines in front of everything are lines like any other
+        k = case["lead"]
+        text = "\n" * k + text
+        for mk in marks.values():
+            if "source" not in mk:
+                mk["line"] += k
+                mk["chain"] = [[c[0], c[1] + k] + c[2:] for c in mk["chain"]]
     d = TMP
     for fn, body in files.items():
         with open(os.path.join(d, fn), "w", encoding="utf8", newline="") as f:
@@ -433,14 +441,14 @@ def run_shard(ctx):
     # 1. deeper random nestings
     n_r = 300 if quick else 20000
     for i in range(n_r):
-        case = {"kind": "struct", "chain": [R.choice(cs) for _ in range(R.randint(3, 5))], "leaf": R.choice(LEAVES)}
+        case = {"kind": "struct", "chain": [R.choice(cs) for _ in range(R.randint(3, 5))], "leaf": R.choice(LEAVES), "lead": R.choice([0, 0, 0, 1, 2])}
         eval_case(ctx, case)
         ctx.case(("struct", repr(case)), True)
         if (i & 0x3F) == 0 and ctx.time_left() < ctx.budget_s * 0.85:
             break
     # 1b. the same nestings through the Sphinx front end
     for i in range(12 if quick else 1200):
-        case = {"kind": "struct", "chain": [R.choice(cs) for _ in range(R.randint(1, 4))], "leaf": R.choice(LEAVES), "front_end": "sphinx"}
+        case = {"kind": "struct", "chain": [R.choice(cs) for _ in range(R.randint(1, 4))], "leaf": R.choice(LEAVES), "front_end": "sphinx", "lead": R.choice([0, 0, 1, 3])}
         eval_case(ctx, case)
         ctx.case(("struct-sphinx", repr(case)), True)
         if ctx.time_left() < ctx.budget_s * 0.75:
